@@ -11,7 +11,7 @@ for d in sorted(glob.glob(os.path.join(here, "*", ""))):
     rows.append("| %s | %s | %s | %s | %s |" % (os.path.basename(d.rstrip("/")), m.get("property"), clip(m.get("what")), clip(m.get("needs")), verdict))
 with open(os.path.join(here, "INDEX.md"), "w") as fh:
     fh.write("# Seeded changes (each verified: compiles, pinned suite passes, demo fails with / passes without)\n\n")
-    fh.write("%d changes. Rounds: ids without prefix = round 1, r2* = round 2, r3* = round 3, r4* = round 4.\n\n" % len(rows))
+    fh.write("%d changes. Rounds: ids without prefix = round 1, rN* = round N (r2 .. r9).\n\n" % len(rows))
     fh.write("| id | property | change | needs | check verdict |\n|---|---|---|---|---|\n")
     fh.write("\n".join(rows) + "\n")
 print(len(rows), "rows")
